@@ -161,8 +161,16 @@ Definition runnable (d : option str) : option str :=
   match d with Some x => Some (path_join x s_workspace) | None => None end.
 
 (* ================================================================ Part 1 *)
+(* str.encode("utf8") (no surrogates) *)
+Definition utf8_cp (c : N) : list N :=
+  if c <? 128 then [c]
+  else if c <? 2048 then [192 + c / 64; 128 + c mod 64]
+  else if c <? 65536 then [224 + c / 4096; 128 + (c / 64) mod 64; 128 + c mod 64]
+  else [240 + c / 262144; 128 + (c / 4096) mod 64; 128 + (c / 64) mod 64; 128 + c mod 64].
+Definition utf8 (s : str) : str := flat_map utf8_cp s.
+
 (* key = recipe name (utf-8) + variant id *)
-Definition dev_key (p : pkg) (vid : str) : str := p_recipe p ++ vid.
+Definition dev_key (p : pkg) (vid : str) : str := utf8 (p_recipe p) ++ vid.
 
 Definition visit := (str * str)%type.     (* (key, baseDir) of one formatter call *)
 
@@ -586,3 +594,45 @@ End Prune.
 Arguments NoDir {content}.
 Arguments IsDir {content} c.
 Arguments IsLinkOrFile {content}.
+
+(* ================================================================ vocabulary of the property statements *)
+(* the directory part posixpath.join puts in front of a relative name *)
+Definition norm (b : str) : str := if is_nil b || ends_slash b then b else b ++ [ch_slash].
+
+(* no two base directories differ only by a trailing slash *)
+Definition sep (bs : list str) : Prop :=
+  forall b1 b2, In b1 bs -> In b2 bs -> norm b1 = norm b2 -> b1 = b2.
+
+Definition hist_sep (h : list (str * list visit)) : Prop :=
+  Forall (fun e => sep (map snd (snd e))) h.
+
+(* release mode: every presented base directory is in BL, every digest in GL *)
+Definition bn_wf (BL GL : list str) (ops : list bnop) : Prop :=
+  Forall (fun o => In (fst (fst o)) BL /\ In (snd (fst o)) GL) ops.
+
+Inductive subnode (root : pkg) : pkg -> Prop :=
+| sn_root : subnode root root
+| sn_child : forall p c, subnode root p -> In c (p_deps p) -> subnode root c.
+
+(* equal package ids denote the same package (the contract of Package._getId) *)
+Definition consistent (root : pkg) : Prop :=
+  forall n1 n2, subnode root n1 -> subnode root n2 -> p_id n1 = p_id n2 -> n1 = n2.
+
+(* the stored state says: this directory holds the result of exactly this step
+   (or nothing is recorded about it); checkout workspaces of valid steps always count *)
+Definition uptodate (ds : dirstates) (k : kind) (n : pkg) (path : str) : Prop :=
+  match k with
+  | KSrc => p_vid KSrc n <> None
+  | KBuild => exists v, p_vid KBuild n = Some v /\
+               (lookup ds path = None \/ exists rest, lookup ds path = Some (DBuild (v :: rest)))
+  | KDist => exists v, p_vid KDist n = Some v /\
+               (lookup ds path = None \/ lookup ds path = Some (DPkg v))
+  end.
+
+(* variant id recorded in a stored build / package directory state *)
+Definition stored_vid (s : option dstate) : option str :=
+  match s with
+  | Some (DBuild (v :: _)) => Some v
+  | Some (DPkg v) => Some v
+  | _ => None
+  end.
